@@ -532,4 +532,50 @@ Section DocDiscipline.
       + exact G2.
     - simpl. apply mem_head.
   Qed.
+
+  (** *** a subscription: subscribe, then every event executes the selection set again *)
+  Lemma repeat_exec_ok n (run1 : elog -> prog eres) known0 :
+    (forall log kn, incl_known known0 kn -> WP kn (run1 log) (fun _ kn' => incl_known kn kn')) ->
+    forall log acc kn, incl_known known0 kn ->
+    WP kn (repeat_exec n run1 log acc) (fun _ kn' => incl_known kn kn').
+  Proof.
+    intro H. induction n as [|k IH]; intros log acc kn Hi; cbn [repeat_exec].
+    - apply wp_ret. apply incl_known_refl.
+    - apply wp_bind. eapply wp_mono; [|apply (H log kn Hi)].
+      intros r kn1 Hi1. cbv beta in Hi1. destruct r as [[log' v]|]; [|apply wp_ret; exact Hi1].
+      eapply wp_mono; [|apply (IH log' (acc ++ [v]) kn1)].
+      + intros x kn2 Hi2. cbv beta in Hi2. eapply incl_known_trans; [exact Hi1 | exact Hi2].
+      + eapply incl_known_trans; [exact Hi | exact Hi1].
+  Qed.
+
+  Theorem ssub_prog_disciplined fuel events d : exists r, snd (run fx S F [] (ssub_prog fuel events d)) = Done r.
+  Proof.
+    apply (wp_run fx S F _ [] (fun _ _ => True)).
+    unfold ssub_prog. apply wp_ask; [reflexivity|].
+    cbn [ask]. destruct (subscription S) as [s|]; cbv beta iota; [|exact I].
+    set (kn0 := handles_of (QRoot RSubscription) (AHandle (Some s)) ++ []).
+    assert (Hs0 : mem s kn0 = true) by (unfold kn0; simpl; apply mem_head).
+    apply wp_bind. eapply wp_mono; [|apply (sdoc_val_wp s d kn0 Hs0)].
+    intros errs kn [Hi Hg]. destruct (is_nil errs) eqn:N; [|exact I].
+    apply is_nil_true in N. destruct (Hg N) as [G1 G2].
+    assert (Hs : mem s kn = true) by (apply Hi; exact Hs0).
+    apply wp_bind.
+    eapply wp_mono; [|apply (collect_ok (d_frags d) fuel s (d_sels d) ([], []) kn Hs G1 G2)].
+    - intros c kn1 [Hi1 Hc]. destruct c as [st|]; cbn [option_map]; [|exact I].
+      destruct (group_entries (snd st)) as [|e [|e' r]]; try exact I.
+      destruct (ce_field e) as [f|]; [|exact I].
+      apply wp_ask; [apply all1; apply Hi1; exact Hs|].
+      set (kn2 := handles_of (QField s f) (ask fx S F (QField s f)) ++ kn1).
+      assert (Hi2 : incl_known kn kn2) by (eapply incl_known_trans; [exact Hi1 | apply incl_known_app]).
+      destruct (ask fx S F (QField s f)) as [| | | [fd|] | | | | |]; try exact I.
+      apply wp_bind.
+      eapply wp_mono; [|apply (repeat_exec_ok events (sexec (d_frags d) fuel s (d_sels d)) kn2)].
+      + intros; exact I.
+      + intros log kn3 Hi3. apply (sexec_ok (d_frags d) fuel s (d_sels d) log kn3).
+        * apply Hi3, Hi2; exact Hs.
+        * eapply good_mono; [|exact G1]. eapply incl_known_trans; [exact Hi2 | exact Hi3].
+        * eapply good_frs_mono; [|exact G2]. eapply incl_known_trans; [exact Hi2 | exact Hi3].
+      + apply incl_known_refl.
+    - intros e [].
+  Qed.
 End DocDiscipline.
